@@ -107,7 +107,7 @@ def run(ck):
             ck.count()
             evs.append(ev)
         # ---- human readable
-        if eid % 2 == 0:
+        if True:
             tj = term_io.export(t)
             ev = {"id": eid, "kind": "hr_roundtrip", "f": tj, "res": "error", "parsed": tj, "toks1": [], "toks2": [], "exc": ""}
             try:
